@@ -4,8 +4,8 @@ import json, os, re, sys, time, hashlib, random
 VERIF = os.path.dirname(os.path.dirname(os.path.abspath(__file__)))
 REPO = os.environ.get("VERIF_REPO", "/repo")
 SPEC = os.path.join(VERIF, "spec")
-EVID = os.path.join(VERIF, "evidence")
-REPLAYS = os.path.join(VERIF, "replays")
+EVID = os.environ.get("VERIF_EVID", os.path.join(VERIF, "evidence"))        # overridden only by tools/seed_eval_wt.sh (seeded changes evaluated on a scratch tree)
+REPLAYS = os.environ.get("VERIF_REPLAYS", os.path.join(VERIF, "replays"))
 CACHE = os.path.join(VERIF, ".cache")
 KNOWN = os.path.join(VERIF, "known_findings.txt")
 
